@@ -98,6 +98,11 @@ def configs(tier, seed):
                 kinds = [rnd.choice(["num", "fa"]) for _ in range(3)]
                 out.append(dict(h="history", op="hist3", key=f"history3/{shape}/" + ">".join(f"{sel_key(sels[i])}:{k}" for i, k in zip(seq, kinds)),
                                 td=td, lens=lens, seq=[[list(s) for s in sels[i]] for i in seq], kinds=list(kinds)))
+    # one key object re-used and mutated in place between assignments (a loop over items)
+    for shape in ["a2b3", "a3b2"]:
+        td, lens = _parse(shape)
+        for kind in ("dict_item", "dict_list", "dict_add_dim"):
+            out.append(dict(h="mutated_key", op=kind, key=f"mutated_key/{shape}/{kind}", td=td, lens=lens, kind=kind))
     # key forms met in the wild: tuple keys with non-adjacent items of one dimension, labels that are falsy in Python
     from checks import c06 as _c06
 
@@ -250,6 +255,38 @@ def run(cfg, w):
             except Exception:
                 w.ob(f"{name}_rejected", True)
             _assert_unchanged(w, name, t, T, td, shape)
+        return
+    if h == "mutated_key":
+        la, lb = td[0], td[1]
+        A, B = dims_all[la].items, dims_all[lb].items
+        model = {idx: T[idx] for idx in np.ndindex(*shape)}
+        kind = cfg["kind"]
+        key = {la: A[0]} if kind != "dict_list" else {la: [A[0]]}
+        steps = []
+        for i in range(min(3, len(A))):
+            if kind == "dict_item":
+                key[la] = A[i]
+                sel_a = [i]
+                sel_b = list(range(len(B)))
+            elif kind == "dict_list":
+                if i:
+                    key[la].append(A[i])
+                sel_a = list(range(i + 1))
+                sel_b = list(range(len(B)))
+            else:
+                key[la] = A[i]
+                if i == 1:
+                    key[lb] = B[-1]
+                sel_a = [i]
+                sel_b = [len(B) - 1] if i >= 1 else list(range(len(B)))
+            k = w.real(f"k{i}")
+            t[key] = k
+            for ia in sel_a:
+                for ib in sel_b:
+                    model[(ia, ib)] = k
+        w.ob("dims_and_shape_unchanged", tuple(t.dims.letters) == tuple(td) and np.shape(t.values) == shape)
+        for idx in np.ndindex(*shape):
+            w.ob_eq(f"after_loop_over_mutated_key{list(idx)}", t.values[idx], model[idx])
         return
     if h == "history":
         model = {idx: T[idx] for idx in np.ndindex(*shape)}
